@@ -1,18 +1,33 @@
-"""Which units decide which property (DESIGN section 7).  A unit spec is (kind, module, attribute, opts)."""
+"""Which units decide which property (DESIGN section 7).  A unit spec is (kind, module, attribute, opts).
+A property's check discharges every contract in its dependency closure: the handlers it is stated about, the helper closures they
+are built from, and the store methods they call (each caller is verified against the callee's contract only)."""
+
 
 def op(mod, name):
     return ('op', f'rxv.contracts.{mod}', f'U_{name}', {})
 
 
-def fn(mod, name):
-    return ('fn', f'rxv.contracts.{mod}', name, {})
+def fn(mod, name, **opts):
+    return ('fn', f'rxv.contracts.{mod}', name, dict(opts))
 
 
-def bounded(mod, name):
-    return ('bounded', f'rxv.bounded.{mod}', name, {})
+def bounded(mod, name, **opts):
+    return ('bounded', f'rxv.bounded.{mod}', name, dict(opts))
 
 
-STORE = []        # filled below once the C14 units exist
+STORE = [fn('c14_store', 'unit_memory_store', method=m) for m in
+         ('add_key', 'set', 'get', 'del_key', 'is_set', 'is_cleared', 'add_map', 'get_map', 'del_map', 'iterate_map')] + \
+        [fn('c14_store', 'unit_store_misc')]
+SCALAR = [op('scalar', n) for n in ('map_mux', 'filter_mux', 'scan_mux', 'first_mux', 'take_mux', 'last_mux')]
+SEQ = [op('seqops', n) for n in ('lag1', 'lag', 'pad_start_mux', 'pad_end_mux', 'start_with', 'distinct')]
+PLUMB = [op('seqops', n) for n in ('mux_observable', 'demux_observable', 'demux_mux_observable', 'drop_probe_state_topology', 'with_store_mux')]
+MISC_OPS = [op('seqops', n) for n in ('assert_mux', 'assert_1_mux', 'do_action_mux', 'flat_map_mux')]
+ERRORS = [op('seqops', n) for n in ('error_ignore', 'error_map', 'error_router')]
+SPAWN = [op('spawners', n) for n in ('split_mux', 'time_split_mux', 'group_by_mux')] + [op('roll', 'roll_mux'), op('roll', 'roll_count')]
+TEE = [fn('tee', 'unit_tee_map', n=n, join=j) for n in (2, 3) for j in ('zip', 'combine_latest', 'merge')] + [fn('plainops', 'unit_plain', which='tee')]
+HELP = lambda *ws: [fn('helpers', 'unit_helpers', which=w) for w in ws]
+PLAIN = lambda *ws: [fn('plainops', 'unit_plain', which=w) for w in ws]
+LEAN = lambda *names: [('lean', 'rxv.lean', 'unit_lean', {'files': list(names)})]
 
 PROPS = {}
 
@@ -24,11 +39,38 @@ def define(pid, title, units, assumptions, design_ref, thorough_extra=()):
 
 A_COMMON = [
     'A1 single-threaded synchronous non-reentrant delivery of events to a handler',
+    'A2 python int is mathematical; counters stored in typed arrays stay below 2^63 (range of array("q"/"Q")); float arithmetic is treated as real arithmetic where stated',
     'A3 python == is modelled as an equivalence (interpreted on None/bool/int/float/str/tuples, free on other objects); `is` implies ==',
     'A4 type(i) is T and isinstance(i, T) coincide on the mux event namedtuples',
     'A5 user callbacks are deterministic, may raise, touch neither store nor observer, never return rxsci sentinels',
+    "A5' behaviour under raising user functions is constrained only where C13 says so; the Error branches of the key-spawning operators carry safety obligations only",
     'A6 downstream observer.on_next does not raise back into the handler',
-    'A7 models of builtins / RxPY in rxv/pymodels.py, rxv/world.py are trusted',
+    'A7 the models of builtins / RxPY / stdlib in rxv/pymodels.py, heapmodels.py, strmodels.py, libmodels.py, world.py are trusted (listed per run under trusted_base)',
+    'termination of loops is not verified',
+    'glue lemmas L1 (projection), L2 (composition), L3 (well-formedness) over the per-handler contracts: L1 is checked by Lean (lemmas/KT.lean); L2, L3 are paper lemmas (DESIGN section 5)',
 ]
 
-define('C09', 'scan/reduce algebra', [op('scalar', 'scan_mux')], A_COMMON, 'DESIGN 7/C09')
+define('C01', 'multiplexing is transparent', SCALAR + MISC_OPS + PLUMB + TEE + [op('spawners', 'group_by_mux')] + HELP('batch', 'distinct_until_changed', 'math', 'formal', 'misc')
+       + PLAIN('scan', 'flat_map', 'assert_1', 'dispatch') + LEAN('KT') + [bounded('mux', 'check_c01')],
+       A_COMMON + ['RxPY plain operators (ops.map/filter/first/last/take/to_list/do_action) are assumed to have their documented list semantics'], 'DESIGN 7/C01')
+define('C02', 'state confinement', STORE + SCALAR + SEQ + [op('seqops', 'assert_1_mux')] + SPAWN + TEE + HELP('batch', 'distinct_until_changed', 'formal') + LEAN('KT')
+       + [bounded('mux', 'check_c02')], A_COMMON, 'DESIGN 7/C02')
+define('C03', 'mux event protocol', SCALAR + SEQ + MISC_OPS + PLUMB + ERRORS + SPAWN + TEE + [bounded('mux', 'check_c03')], A_COMMON, 'DESIGN 7/C03')
+define('C04', 'group_by partitions', [op('spawners', 'group_by_mux'), op('seqops', 'demux_mux_observable')] + STORE + [bounded('mux', 'check_c04')], A_COMMON, 'DESIGN 7/C04')
+define('C05', 'roll windows', [op('roll', 'roll_mux'), op('roll', 'roll_count'), op('seqops', 'demux_mux_observable')] + STORE + [bounded('mux', 'check_c05')], A_COMMON, 'DESIGN 7/C05')
+define('C06', 'split', [op('spawners', 'split_mux'), op('seqops', 'demux_mux_observable')] + [bounded('mux', 'check_c06')], A_COMMON, 'DESIGN 7/C06')
+define('C07', 'time_split', [op('spawners', 'time_split_mux'), op('seqops', 'demux_mux_observable')] + [bounded('mux', 'check_c07')],
+       A_COMMON + ['datetime / timedelta arithmetic is an ordered group (modelled as reals); timeouts are positive'], 'DESIGN 7/C07')
+define('C08', 'tee_map join', TEE + [bounded('mux', 'check_c08')], A_COMMON + ['number of branches: n = 2, 3 (bounded parameter); rx publish/connect assumed'], 'DESIGN 7/C08')
+define('C09', 'scan/reduce algebra', [op('scalar', 'scan_mux')] + PLAIN('scan') + HELP('batch', 'distinct_until_changed', 'math', 'formal', 'misc') + STORE + [bounded('mux', 'check_c09')],
+       A_COMMON, 'DESIGN 7/C09')
+define('C10', 'per-key sequence operators', [op('scalar', n) for n in ('first_mux', 'take_mux', 'last_mux')] + SEQ + HELP('batch', 'distinct_until_changed') + PLAIN('to_deque')
+       + STORE + [bounded('mux', 'check_c10')], A_COMMON + ['sorted() is a stable sort (trusted)'], 'DESIGN 7/C10')
+define('C11', 'streaming promptness', SCALAR + SEQ + PLUMB + SPAWN + TEE + HELP('batch') + [bounded('mux', 'check_c11')],
+       A_COMMON + ['promptness = the per-call emission postconditions: every ensures names the call in which an output appears; no handler uses a scheduler (a scheduler use leaves the verified subset)'],
+       'DESIGN 7/C11')
+define('C12', 'math aggregates', HELP('math', 'formal') + [op('scalar', 'scan_mux')] + PLAIN('scan') + [bounded('mux', 'check_c12')],
+       A_COMMON + ['A2f: the accumulator identities are proved over the reals; the IEEE-754 error bound of the statement is only checked on the stated bounded scope (exact rational oracle)'], 'DESIGN 7/C12')
+define('C13', 'item-level errors', [op('scalar', n) for n in ('map_mux', 'filter_mux', 'scan_mux')] + ERRORS + [op('seqops', 'demux_observable'), op('seqops', 'demux_mux_observable')]
+       + HELP('misc') + [bounded('mux', 'check_c13')], A_COMMON, 'DESIGN 7/C13')
+define('C14', 'memory store', STORE + [bounded('mux', 'check_c14')], A_COMMON[:3] + A_COMMON[6:9], 'DESIGN 7/C14')
